@@ -317,7 +317,11 @@ class TimeBase(np.ndarray):
         b = b if a.scale == b.scale else getattr(b, a.scale)
         # Formats with several columns come as a tuple of columns, the array has one row per epoch (as in __new__)
         b_formatted = np.asarray(b) if a.fmt == b.fmt else np.asarray(getattr(b, a.fmt)).T
-        val = np.insert(np.asarray(a), pos, b_formatted, axis=0)
+        a_values = np.asarray(a)
+        if a_values.size == 0:
+            # An empty array that was rebuilt (subset, copy, ...) holds float64 values whatever its format
+            a_values = a_values.astype(np.asarray(b_formatted).dtype)
+        val = np.insert(a_values, pos, b_formatted, axis=0)
         jd1 = np.insert(a.jd1, pos, b.jd1)
         jd2 = np.insert(a.jd2, pos, b.jd2)
         new_time = cls._scales()[a.scale](val, fmt=a.fmt, _jd1=jd1, _jd2=jd2)
